@@ -361,7 +361,10 @@ BinOp(f, a, vx, vy, S, F) ==
          [] f = "lt" -> IF vx.t = vy.t /\ vx.t \in {"int", "str"} THEN Bind(S, a, BoolV(Lt(vx, vy)), S.h) ELSE Fail(S)
          [] f = "in" ->                                              \* vy in vx
               IF IsList(vx, S.h) THEN
-                   IF F.strict /\ IsRef(vy) /\ Elems(vx, S.h) # <<>> THEN Fail(S)     \* Go == on uncomparable operands panics
+                   IF F.strict /\ IsRef(vy) /\ \E j \in 1..Len(Elems(vx, S.h)) :
+                                                    LET ej == Elems(vx, S.h)[j] IN
+                                                    IsRef(ej) /\ S.h[ej.i].k = S.h[vy.i].k /\ S.h[ej.i].fz = S.h[vy.i].fz
+                   THEN Fail(S)     \* Go == on two values of the same uncomparable type (pyList, pyDict) panics; different types are just unequal
                    ELSE Bind(S, a, BoolV(\E j \in 1..Len(Elems(vx, S.h)) : EqF(Elems(vx, S.h)[j], vy, S.h, F)), S.h)
               ELSE IF IsDict(vx, S.h) THEN
                    IF IsRef(vy) THEN Fail(S)                                           \* unhashable
